@@ -414,3 +414,118 @@ func H03f_publish_setters() {
 	vrtAssert("C03.setters_bytes", vrtBytesEq(out[:n2], want))
 	vrtReach("C03.setters")
 }
+
+// H03e: remaining lengths at the varint boundaries, for every packet type whose
+// length is not fixed: contents are concrete (a pattern), the sizes are what matters.
+func vrtPattern(n int, seed byte) []byte {
+	b := make([]byte, n)
+	for i := range b {
+		b[i] = 'a' + byte((i+int(seed))%23)
+	}
+	return b
+}
+
+func vrtBoundary() int {
+	sizes := []int{127, 128, 16383, 16384}
+	if vrtBound("N03huge", 0) == 1 {
+		sizes = append(sizes, 2097151, 2097152)
+	}
+	return sizes[vrtChoice("remlen", len(sizes))]
+}
+
+func H03e_publish_boundary() {
+	L := vrtBoundary()
+	q := byte(vrtChoice("qos", 3))
+	m := NewPublishMessage()
+	topic := []byte("t/x")
+	over := 2 + len(topic)
+	if q > 0 {
+		over += 2
+	}
+	payload := vrtPattern(L-over, 1)
+	m.SetTopic(topic)
+	m.SetPayload(payload)
+	m.SetQoS(q)
+	exp := specPkt{Typ: 3, Flags: q << 1, Topic: topic, Payload: payload}
+	if q > 0 {
+		m.SetPacketID(7)
+		exp.ID = 7
+	}
+	vrtEncodeCheck(m, &exp)
+}
+
+func H03e_suback_boundary() {
+	L := vrtBoundary()
+	vrtAssume(L <= 16384)
+	m := NewSubackMessage()
+	m.SetPacketID(9)
+	codes := make([]byte, L-2)
+	for i := range codes {
+		codes[i] = byte(i % 3)
+	}
+	vrtAssert("C03.addreturncodes_ok", m.AddReturnCodes(codes) == nil)
+	vrtEncodeCheck(m, &specPkt{Typ: 9, ID: 9, Codes: codes})
+}
+
+func H03e_subscribe_boundary() {
+	L := vrtBoundary()
+	vrtAssume(L <= 16384)
+	m := NewSubscribeMessage()
+	m.SetPacketID(9)
+	// two filters; the second one sized to reach the boundary
+	t1 := []byte("a/+")
+	t2 := vrtPattern(L-2-(2+len(t1)+1)-(2+1), 3)
+	m.AddTopic(t1, 1)
+	m.AddTopic(t2, 2)
+	vrtEncodeCheck(m, &specPkt{Typ: 8, ID: 9, Topics: [][]byte{t1, t2}, QoS: []byte{1, 2}})
+}
+
+func H03e_unsubscribe_boundary() {
+	L := vrtBoundary()
+	vrtAssume(L <= 16384)
+	m := NewUnsubscribeMessage()
+	m.SetPacketID(9)
+	t1 := []byte("a/+")
+	t2 := vrtPattern(L-2-(2+len(t1))-2, 5)
+	m.AddTopic(t1)
+	m.AddTopic(t2)
+	vrtEncodeCheck(m, &specPkt{Typ: 10, ID: 9, Topics: [][]byte{t1, t2}})
+}
+
+func H03e_connect_boundary() {
+	L := vrtBoundary()
+	vrtAssume(L <= 16384)
+	m := NewConnectMessage()
+	m.SetVersion(4)
+	m.SetCleanSession(true)
+	m.SetClientID([]byte("cid"))
+	wt := []byte("will/t")
+	fixed := 2 + 4 + 1 + 1 + 2 + (2 + 3) + (2 + len(wt)) + 2
+	wm := vrtPattern(L-fixed, 7)
+	m.SetWillTopic(wt)
+	m.SetWillMessage(wm)
+	m.SetWillQos(1)
+	vrtEncodeCheck(m, &specPkt{Typ: 1, Proto: []byte("MQTT"), Level: 4, CFlags: 2 | 4 | 1<<3, ClientID: []byte("cid"), WillTopic: wt, WillMsg: wm})
+}
+
+// H03e_lpstring_max: length-prefixed strings at 0 / 1 / 65534 / 65535 bytes.
+func H03e_lpstring_max() {
+	sizes := []int{0, 1, 65534, 65535}
+	n := sizes[vrtChoice("len", len(sizes))]
+	s := vrtPattern(n, 2)
+	buf := make([]byte, n+2)
+	w, err := writeLPBytes(buf, s)
+	vrtAssert("C03.lp_write", vrtAnd(err == nil, w == n+2))
+	vrtAssert("C03.lp_prefix", vrtAnd(buf[0] == byte(n>>8), buf[1] == byte(n)))
+	got, r, err2 := readLPBytes(buf)
+	vrtAssert("C03.lp_read", vrtAnd(err2 == nil, vrtAnd(r == n+2, len(got) == n)))
+	if n > 0 && len(got) == n {
+		vrtAssert("C03.lp_content", vrtAnd(got[0] == s[0], got[n-1] == s[n-1]))
+	}
+	// one byte short must be refused, not panic
+	if n > 0 {
+		_, _, err3 := readLPBytes(buf[: n+1 : n+1])
+		vrtAssert("C03.lp_short_refused", err3 != nil)
+	}
+	vrtReach("C03.lp")
+}
